@@ -3,17 +3,29 @@
 //   h_pipe <trace> <nseeds> <seed0> <maxlen>
 #include "oneapi/tbb/parallel_pipeline.h"
 #include "sched_common.h"
+#include <random>
 VS_DEFINE_GLOBALS
 using namespace vs;
 static unsigned g_delay_seed;
 static void delay(int stage, int item) { unsigned h = (g_delay_seed * 2654435761u) ^ (stage * 40503u + item * 9973u); h ^= h >> 13; int n = h % 4; for (int i = 0; i < n; i++) cosched::yield_point(); }
+// gated mode: the completion order of the middle (parallel) stage follows a plan - item x leaves the stage only after the items planned before it
+// have left it (bounded wait, so a plan that cannot be realised with the available threads / tokens never dead-locks).  Plans are the
+// arrival orders at an ordered stage that make its token ring grow: jumps of 1, 2 and more ring sizes (Pipeline.tla: Park / Grow).
+static std::vector<int> g_rank; static int g_left_stage[64]; static int g_nthreads = 3;
+static void gate(int stage, int x) {
+    if (g_rank.empty() || stage != 2 || x >= (int)g_rank.size()) return;
+    for (long spin = 0; spin < 6000; spin++) {
+        bool ok = true; for (int y = 1; y < (int)g_rank.size(); y++) if (g_rank[y] < g_rank[x] && !__atomic_load_n(&g_left_stage[y], __ATOMIC_SEQ_CST)) { ok = false; break; }
+        if (ok) break; cosched::yield_point(); }
+    __atomic_store_n(&g_left_stage[x], 1, __ATOMIC_SEQ_CST);
+}
 static tbb::filter_mode fm(char c) { return c == 'P' ? tbb::filter_mode::parallel : c == 'O' ? tbb::filter_mode::serial_out_of_order : tbb::filter_mode::serial_in_order; }
 static const char* mname(char c) { return c == 'P' ? "P" : c == 'O' ? "SO" : "SI"; }
 static void pipe_case(const std::string& modes, int tokens, int nitems) {
     std::ostringstream ms; for (size_t i = 0; i < modes.size(); i++) ms << (i ? "," : "") << "\"" << mname(modes[i]) << "\"";
     TR.emit("{\"e\":\"Pipe\",\"modes\":[%s],\"tokens\":%d,\"n\":%d}", ms.str().c_str(), tokens, nitems);
     int produced = 0; int NF = (int)modes.size();
-    auto mid = [&](int f) { return [f](int x) { TR.emit("{\"e\":\"FB\",\"f\":%d,\"x\":%d}", f, x); delay(f, x); TR.emit("{\"e\":\"FE\",\"f\":%d,\"x\":%d}", f, x); return x; }; };
+    auto mid = [&](int f) { return [f](int x) { TR.emit("{\"e\":\"FB\",\"f\":%d,\"x\":%d}", f, x); delay(f, x); gate(f, x); TR.emit("{\"e\":\"FE\",\"f\":%d,\"x\":%d}", f, x); return x; }; };
     auto last = [&](int f) { return [f](int x) { TR.emit("{\"e\":\"FB\",\"f\":%d,\"x\":%d}", f, x); delay(f, x); TR.emit("{\"e\":\"FE\",\"f\":%d,\"x\":%d}", f, x); }; };
     auto first = [&](tbb::flow_control& fc) -> int { if (produced >= nitems) { TR.emit("{\"e\":\"Stop\"}"); fc.stop(); return 0; } int x = ++produced; TR.emit("{\"e\":\"FB\",\"f\":1,\"x\":%d}", x); delay(1, x); TR.emit("{\"e\":\"FE\",\"f\":1,\"x\":%d}", x); return x; };
     if (NF == 1) tbb::parallel_pipeline(tokens, tbb::make_filter<void, void>(fm(modes[0]), [&](tbb::flow_control& fc) { (void)first(fc); }));
@@ -24,11 +36,26 @@ static void pipe_case(const std::string& modes, int tokens, int nitems) {
 }
 int main(int argc, char** argv) {
     if (argc < 5) return 2;
+    if (atoi(argv[4]) == 0 && argc < 8) return 2;
     TR.open(argv[1]); int nseeds = atoi(argv[2]); unsigned long seed0 = strtoul(argv[3], nullptr, 10); int maxlen = atoi(argv[4]);
     long paths = 0, steps = 0, stuck = 0; vh::Timer tm; static const int dens[8] = {1, 3, 10, 40, -1, -2, -3, -5};
     std::vector<std::string> strings; const char al[3] = {'P', 'O', 'I'};
     for (int len = 1; len <= std::min(maxlen, 3); len++) { int tot = 1; for (int i = 0; i < len; i++) tot *= 3; for (int c = 0; c < tot; c++) { std::string s; int x = c; for (int i = 0; i < len; i++) { s += al[x % 3]; x /= 3; } strings.push_back(s); } }
     if (maxlen >= 4) for (auto s : {"OPII", "PPIO", "IPOI", "IIII", "POIP", "OIPI"}) strings.push_back(s);
+    if (maxlen == 0) {     // gated plans: <trace> <nseeds> <seed0> 0 <threads> <tokens> <items>
+        g_nthreads = atoi(argv[5]); int tok = atoi(argv[6]), n = atoi(argv[7]);
+        // item ids are 1-based; a plan lists the items that leave the parallel stage first, in that order; the others follow in ascending order
+        static const std::vector<std::vector<int>> heads = {{2, 3, 4, 10}, {2, 3, 4, 9, 10}, {10}, {3, 4, 9, 10, 1}, {2, 6, 10, 3}, {4, 8, 12}, {2, 3, 4, 5, 6, 7, 8, 9}, {5, 9, 2}, {9, 10, 2, 3, 4}};
+        for (int s = 0; s < nseeds; s++) for (auto m : {"IPI", "IPO", "IPII", "OPI"}) {
+            std::vector<int> head = heads[(s + seed0) % heads.size()];
+            if (s >= (int)heads.size()) { std::mt19937 rg(seed0 * 77 + s); head.clear(); int k = 1 + rg() % 5; for (int i = 0; i < k; i++) head.push_back(1 + rg() % n); }
+            g_rank.assign(n + 1, 0); int r = 1; for (int x : head) if (x <= n && !g_rank[x]) g_rank[x] = r++; for (int x = 1; x <= n; x++) if (!g_rank[x]) g_rank[x] = r++;
+            memset(g_left_stage, 0, sizeof g_left_stage); g_delay_seed = (unsigned)(seed0 * 31 + s * 7);
+            if (stuck >= 10) break;
+            TR.begin_exec(); Result rr = run_in_arena(g_nthreads, seed0 + s * 401 + paths, dens[s % 8], 40000000, [&] { pipe_case(m, tok, n); }, false); ++paths; steps += rr.steps; if (rr.rc) ++stuck;
+        }
+        g_rank.clear();
+    } else
     for (int s = 0; s < nseeds; s++) for (auto& m : strings) for (int tok = 1; tok <= 3; tok++) {
         if (stuck >= 10) break; int n = (int)((seed0 + s + tok + m.size()) % 6); g_delay_seed = (unsigned)(seed0 * 31 + s * 7 + tok);
         TR.begin_exec(); Result r = run_in_arena(3, seed0 + s * 401 + tok * 17 + paths, dens[(s + tok) % 8], 20000000, [&] { pipe_case(m, tok, n); }, false); ++paths; steps += r.steps; if (r.rc) ++stuck;
